@@ -171,14 +171,17 @@ theorem all_prim_orU (a b : Value) : Res.AllW (fun r => r.isPrim = true) (orU a 
     · simp only [Res.all_bind]; apply Res.all_of_forall; intro y; simp
   all_goals split <;> simp
 
-theorem all_prim_rangeArith (op : Num → Num → Res Num) (a b : Value) :
-    Res.AllW (fun r => r.isPrim = true) (rangeArith op a b) := by
-  unfold rangeArith
+theorem all_prim_rangeArithC (corner : Option Num → Option Num → Option Num) (a b : Value) :
+    Res.AllW (fun r => r.isPrim = true) (rangeArithC corner a b) := by
+  unfold rangeArithC
   simp only [Res.all_bind]
   apply Res.all_of_forall; intro ra; apply Res.all_of_forall; intro rb
   apply Res.all_of_forall; intro x1; apply Res.all_of_forall; intro x2
   apply Res.all_of_forall; intro x3; apply Res.all_of_forall; intro x4
   simp [isPrim_numRangeResult]
+
+theorem all_prim_rangeArith (op : Num → Num → Res Num) (a b : Value) :
+    Res.AllW (fun r => r.isPrim = true) (rangeArith op a b) := all_prim_rangeArithC _ a b
 
 theorem all_prim_arithU (opN : Num → Num → Res Num) (a b : Value) :
     Res.AllW (fun r => r.isPrim = true)
@@ -194,7 +197,17 @@ theorem all_prim_arithU (opN : Num → Num → Res Num) (a b : Value) :
 
 theorem all_prim_addU (a b : Value) : Res.AllW (fun r => r.isPrim = true) (addU a b) := all_prim_arithU Num.add a b
 theorem all_prim_subU (a b : Value) : Res.AllW (fun r => r.isPrim = true) (subU a b) := all_prim_arithU Num.sub a b
-theorem all_prim_mulU (a b : Value) : Res.AllW (fun r => r.isPrim = true) (mulU a b) := all_prim_arithU Num.mulCty a b
+theorem all_prim_mulU (a b : Value) : Res.AllW (fun r => r.isPrim = true) (mulU a b) := by
+  unfold mulU
+  simp only [Res.all_bind]
+  apply Res.all_of_forall
+  intro tc
+  cases tc <;> simp only [Res.all_bind]
+  · apply Res.all_of_forall; intro x; apply Res.all_of_forall; intro y; apply Res.all_of_forall; intro z; simp
+  all_goals
+    split
+    · simp [pure, Res.AllW, zeroVal, isPrim]
+    · exact all_prim_rangeArithC _ _ _
 
 theorem all_prim_divU (a b : Value) : Res.AllW (fun r => r.isPrim = true) (divU a b) := by
   unfold divU
